@@ -90,11 +90,38 @@ pub fn run(ctx: &Ctx) -> Report {
             }
         }
     }
+    // messages at the top of the size range (65 500..=65 552 bytes in steps of 4: one large attribute,
+    // then every tail of sealing attributes): the last attributes lie across byte 65 535
+    for total in (65_500usize..=65_552).step_by(4) {
+        for tail in [&[Tok::FpOk][..], &[Tok::Mi, Tok::FpOk][..], &[Tok::Mi, Tok::Mi256(32), Tok::FpOk][..], &[Tok::Mi256(16), Tok::FpOk][..], &[Tok::Mi][..], &[][..]] {
+            let tail_len: usize = tail.iter().map(|t| match t { Tok::Mi => 24, Tok::Mi256(k) => 4 + *k as usize, _ => 8 }).sum();
+            if total < 20 + 8 + tail_len + 4 {
+                continue;
+            }
+            let filler = total - 20 - 8 - tail_len - 4; // SOFTWARE(1) takes 8, the filler attribute header 4
+            if filler % 4 != 0 || filler > 65_000 + 535 {
+                continue;
+            }
+            let mut b = wire::encode_header(2, 1, tid, 0);
+            wire::append_raw(&mut b, 0x8022, b"x");
+            wire::append_raw(&mut b, 0x0013, &vec![0x5Au8; filler]);
+            for t in tail {
+                match t {
+                    Tok::Mi => wire::append_mi(&mut b, engine_in::KEY),
+                    Tok::Mi256(k) => wire::append_mi256(&mut b, engine_in::KEY, *k as usize),
+                    _ => wire::append_fp(&mut b),
+                }
+            }
+            if b.len() == total && b.len() - 20 <= 0xFFFF {
+                look.push(Case::new("expose", b));
+            }
+        }
+    }
     let acc = acc.merge(crate::props::sweep(look.into_par_iter(), judge));
     Report {
         acc,
         exhaustive: true,
-        rule: "all sequences over {OPT, SOFTWARE, USERNAME, MI, MI256/32, MI256/16, FP} up to the depth, reference-serialised with correct HMACs/CRC, x {request, success}; only those the reference decoder accepts are judged (distinct_nontrivial); the iterated sequence is also taken through nth / skip / step_by / fold / last / count / size_hint and must be the same; plus messages with 1..=48 distinct attribute types before every tail of sealing attributes (lookups judged for every type present); plus messages whose hidden MESSAGE-INTEGRITY (behind MI-SHA256) carries a sealing-attribute header at every 4-aligned offset of its value; tail replacement is covered because every alternative tail of a prefix is itself a sequence of the space".into(),
+        rule: "all sequences over {OPT, SOFTWARE, USERNAME, MI, MI256/32, MI256/16, FP} up to the depth, reference-serialised with correct HMACs/CRC, x {request, success}; only those the reference decoder accepts are judged (distinct_nontrivial); the iterated sequence is also taken through nth / skip / step_by / fold / last / count / size_hint and must be the same; plus messages of 65 500..=65 552 bytes with every tail of sealing attributes; plus messages with 1..=48 distinct attribute types before every tail of sealing attributes (lookups judged for every type present); plus messages whose hidden MESSAGE-INTEGRITY (behind MI-SHA256) carries a sealing-attribute header at every 4-aligned offset of its value; tail replacement is covered because every alternative tail of a prefix is itself a sequence of the space".into(),
         bounds: json!({"sequences": n_sk, "depth": depth, "classes": 2}),
         assumptions: vec!["parser acceptance itself is C02's business: buffers the reference refuses are skipped here".into()],
         ..Default::default()
